@@ -392,6 +392,93 @@ fn stream_case(sm: &mut Box<Sim>, k: &Rc<NetKern>, tcp: bool, slot: u64, thoroug
     }
 }
 
+/// The peer answers and closes while data we sent it is still unread (its close resets the
+/// connection): the bytes of the answer were delivered before that and must reach the reader.
+fn reset_case(sm: &mut Box<Sim>, k: &Rc<NetKern>, slot: u64) -> Out {
+    let d = &mut sm.dec;
+    let reply_len = *d.pick(K::Arg, &[1usize, 10, 100, 4000]);
+    let request_len = *d.pick(K::Arg, &[1usize, 64, 3000]);
+    let read_buf = *d.pick(K::Arg, &[1usize, 5, 10, 11, 64, 5000]);
+    k.short_p.set(*d.pick(K::Cfg, &[0, 0, 8]));
+    k.eintr_left.set(*d.pick(K::Cfg, &[0, 0, 2]));
+    sm.draw_strategy(2);
+    let path = format!("/verif/work/c16.{}.{}.rsock", unsafe { libc::getpid() }, slot % 4);
+    let _ = std::fs::remove_file(&path);
+    let upath = UnixString::try_from_string(path.clone()).unwrap();
+    let sh = Rc::new(Shared { listening: Cell::new(false), done_writing: Cell::new(false), received: Cell::new(0), sent_ok: Cell::new(false), port: Cell::new(0), writer_dropped: Cell::new(false) });
+    {
+        let (sh, upath) = (sh.clone(), upath.clone());
+        sm.spawn(
+            "server",
+            Box::new(move || {
+                let mut l = UnixListener::bind(&upath).unwrap_or_else(|e| sched::fail("harness|bind", format!("{e:?}")));
+                sh.listening.set(true);
+                let mut st = match l.accept() {
+                    Ok(s) => s,
+                    Err(e) => sched::fail("accept|error", format!("blocking accept failed: {e:?}")),
+                };
+                // wait for the request to be queued, do not read it
+                while !sh.sent_ok.get() {
+                    sched::yield_now();
+                    let _ = tiny_std::thread::sleep(Duration::from_micros(20));
+                }
+                let reply: Vec<u8> = (0..reply_len).map(pat).collect();
+                if let Err(e) = st.write_all(&reply) {
+                    sched::fail("stream|write-error", format!("writing the {reply_len}-byte answer failed: {e:?}"));
+                }
+                drop(st);
+                sh.writer_dropped.set(true);
+            }),
+        );
+    }
+    {
+        let (sh, upath) = (sh.clone(), upath.clone());
+        sm.spawn(
+            "client",
+            Box::new(move || {
+                while !sh.listening.get() {
+                    sched::yield_now();
+                    let _ = tiny_std::thread::sleep(Duration::from_micros(10));
+                }
+                let mut st = match UnixStream::connect(&upath) {
+                    Ok(s) => s,
+                    Err(e) => sched::fail("connect|error", format!("blocking connect failed: {e:?}")),
+                };
+                let request: Vec<u8> = (0..request_len).map(|i| pat(i + 7)).collect();
+                if let Err(e) = st.write_all(&request) {
+                    sched::fail("stream|write-error", format!("writing the {request_len}-byte request failed: {e:?}"));
+                }
+                sh.sent_ok.set(true);
+                // read only after the peer has answered and closed
+                while !sh.writer_dropped.get() {
+                    sched::yield_now();
+                    let _ = tiny_std::thread::sleep(Duration::from_micros(20));
+                }
+                let mut got = 0usize;
+                let mut buf = vec![0u8; read_buf];
+                while got < reply_len {
+                    match st.read(&mut buf) {
+                        Ok(0) => sched::fail("stream|answer-lost-on-reset", format!("end of stream after {got} of the {reply_len} bytes the peer had written before it closed")),
+                        Ok(n) => {
+                            for (j, b) in buf[..n].iter().enumerate() {
+                                if got + j >= reply_len || *b != pat(got + j) {
+                                    sched::fail("stream|wrong-byte", format!("byte {} of the answer is wrong", got + j));
+                                }
+                            }
+                            got += n;
+                            sh.received.set(got);
+                        }
+                        Err(e) => sched::fail("stream|answer-lost-on-reset", format!("read failed with {e:?} after {got} of the {reply_len} bytes the peer had written before it closed with our request unread (read buffer {read_buf} bytes)")),
+                    }
+                }
+            }),
+        );
+    }
+    sched::run(sm);
+    let _ = std::fs::remove_file(&path);
+    Out { sample: json!({"kind": "answer then close with the request unread (unix)", "answer_bytes": reply_len, "request_bytes": request_len, "read_buffer": read_buf, "strategy": format!("{:?}", sm.strategy)}), nontrivial: true }
+}
+
 fn timeout_case(sm: &mut Box<Sim>, k: &Rc<NetKern>, slot: u64) -> Out {
     let d = &mut sm.dec;
     let limit_us = *d.pick(K::Arg, &[1u64, 100, 1_000, 15_000, 1_000_000, 10_000_000]);
@@ -681,11 +768,15 @@ fn scm_case(sm: &mut Box<Sim>, slot: u64) -> Out {
         _ => 1 + d.choose(K::Arg, 16) as usize,
     };
     let need = if nfds == 0 { 0 } else { (16 + 4 * nfds + 7) & !7 };
-    let ctl_len = match d.choose(K::Arg, 6) {
+    let ctl_len = match d.choose(K::Arg, 8) {
         0 | 1 => need,
         2 => need + 8 * (1 + d.choose(K::Arg, 8) as usize),
         3 => need.saturating_sub(8 * (1 + d.choose(K::Arg, 3) as usize)),
         4 => need + 64,
+        // lengths that are not a multiple of the 8-byte control-message alignment: the buffer ends
+        // inside the padding of the last message (exact fit without padding, or truncating)
+        5 => 16 + 4 * nfds.max(1),
+        6 => 16 + 4 * (1 + d.choose(K::Arg, 20) as usize),
         _ => (16 + 4 * (1 + d.choose(K::Arg, 20) as usize) + 7) & !7,
     };
     let payload_len = 1 + d.choose(K::Arg, 64) as usize;
@@ -868,7 +959,7 @@ impl Check for C16 {
         }
     }
     fn rule(&self) -> String {
-        "case kinds rotate: (0) unix stream and (1) loopback TCP stream transfer between a simulated server and client thread: payload 0..500 KB (thorough: up to 4 MB) with a position-dependent byte pattern, generated write_all chunk sequence and read buffer sequence (1 byte .. 64 KB, thorough 1 MB), SO_SNDBUF/SO_RCVBUF 1 KB..200 KB so buffers fill, either side writing, writer or reader finishing first, delays before connect/accept, scheduling strategy by swarm; faults: shortened read/write lengths, EINTR returned from ppoll after part of the wait; (2) timeouts and try variants: accept_with_timeout (unix, tcp), read_with_timeout, connect_with_timeout with limits 1 us..10 s on the simulated clock and a peer that acts before, after or never, 0..6 interruptions of the wait; try_accept/try_connect against empty and non-empty queues must not enter ppoll; (3) SCM_RIGHTS: 0..16 descriptors through rusl sendmsg/recvmsg with control buffers smaller than, equal to and larger than needed, the receive control buffer flush against a PROT_NONE page, receiver in a forked child, descriptors identified by (dev, ino). Oracles: first wrong byte, totals, deadlock detector (blocking calls complete once the peer acted), Timeout only after the simulated clock advanced by the limit and never when the event was present at call time, exact descriptor list. non-trivial = a thread actually parked in ppoll during a transfer / a timeout or interruption happened / descriptors were passed; distinct = hash of the event sequence".into()
+        "case kinds rotate: (0) unix stream and (1) loopback TCP stream transfer between a simulated server and client thread: payload 0..500 KB (thorough: up to 4 MB) with a position-dependent byte pattern, generated write_all chunk sequence and read buffer sequence (1 byte .. 64 KB, thorough 1 MB), SO_SNDBUF/SO_RCVBUF 1 KB..200 KB so buffers fill, either side writing, writer or reader finishing first, delays before connect/accept, scheduling strategy by swarm; faults: shortened read/write lengths, EINTR returned from ppoll after part of the wait; (2) timeouts and try variants: accept_with_timeout (unix, tcp), read_with_timeout, connect_with_timeout with limits 1 us..10 s on the simulated clock and a peer that acts before, after or never, 0..6 interruptions of the wait; try_accept/try_connect against empty and non-empty queues must not enter ppoll; (3) SCM_RIGHTS: 0..16 descriptors through rusl sendmsg/recvmsg with control buffers smaller than, equal to and larger than needed, incl. lengths that are not a multiple of 8, the receive control buffer flush against a PROT_NONE page, receiver in a forked child, descriptors identified by (dev, ino). Oracles: first wrong byte, totals, deadlock detector (blocking calls complete once the peer acted), Timeout only after the simulated clock advanced by the limit and never when the event was present at call time, exact descriptor list. non-trivial = a thread actually parked in ppoll during a transfer / a timeout or interruption happened / descriptors were passed; distinct = hash of the event sequence".into()
     }
     fn assumptions(&self) -> Vec<String> {
         vec![
@@ -892,6 +983,7 @@ impl Check for C16 {
         let o = match kind {
             0 => stream_case(&mut sim, &k, false, case, long),
             1 => stream_case(&mut sim, &k, true, case, long),
+            2 if (hk >> 16) % 4 == 0 => reset_case(&mut sim, &k, case),
             2 => timeout_case(&mut sim, &k, case),
             _ => scm_case(&mut sim, case),
         };
